@@ -4,19 +4,23 @@ from pyvc.contract import chain_hooks
 from props._generic import run_property, replay_with_driver
 
 LEVEL = "other"
-KEYS = ["_reaction_deletion", "_get_growth", "Reaction.knock_out", "Model.__enter__", "Model.__exit__", "Model.slim_optimize"]
+KEYS = ["_reaction_deletion", "_gene_deletion", "_get_growth", "Reaction.knock_out", "Model.__enter__", "Model.__exit__", "Model.slim_optimize"]
 
 
 def run(rep):
-    run_property(rep, KEYS, hooks=chain_hooks(C.HOOKS, C.HOOKS_GG), explanation=(
+    run_property(rep, KEYS, hooks=chain_hooks(C.HOOKS_G, C.HOOKS_GG), lemmas=C.C7.mono_lemmas, explanation=(
         "Deductive (kernel): _reaction_deletion is proved, for every list of reaction ids (loop invariant over the list), to read growth "
         "and status at a moment when exactly the listed reactions have bounds (0,0) and every other reaction has the bounds it had at "
         "entry, to return what was read there together with the ids, and to close the context it opened (stack as found, its history "
         "replayed by __exit__); an unknown id raises KeyError. _get_growth is proved to return the objective value iff the status is "
         "optimal and NaN otherwise (FBA), resp. the primal of moma_old_objective (MOMA), with the solver status of that solve. "
-        "_gene_deletion, the frozenset combination logic of _multi_deletion, the pool fan-out, the pandas result frame and the "
-        "essentiality thresholds are NOT proved: bounded driver (every row against the exact optimum of an independently knocked-out "
-        "copy; fba and linear moma; objects or ids; processes 1-3)."),
+        "_gene_deletion is proved likewise (loop invariant over the id list, using Gene.knock_out's contract, the cross-reference "
+        "invariant as precondition and the monotonicity of the and/or semantics): growth and status are read when exactly the listed "
+        "genes have become non-functional and a reaction has bounds (0,0) exactly when it belongs to a listed gene and its rule is "
+        "false with its non-functional genes absent, every other reaction as at entry. The frozenset combination logic of "
+        "_multi_deletion, the pool fan-out, the pandas result frame and the essentiality thresholds are NOT proved: bounded driver "
+        "(every row against the exact optimum of an independently knocked-out copy; fba and linear moma; objects or ids; processes "
+        "1-3)."),
         trusted=["optlang/GLPK optimize (assumed, monitored)", "C03: undo actions restore the model (abstract world)",
                  "DictList.get_by_id (proved under C15)", "Reaction.knock_out (proved under C01/C07)"])
 
